@@ -211,6 +211,25 @@ Theorem C08_mempool_admits_only_covered : forall cfg bs, wf_cfg cfg -> Forall (f
 Proof. exact mempool_admitted_covered. Qed.
 Print Assumptions C08_mempool_admits_only_covered.
 
+(** Recheck.  After a commit the node offers every still-pending transaction again (CheckTx of type
+    Recheck) to the same ante handler on the fresh check state; in the model a pending transaction is
+    offered again ([b_recheck]) to the same [mempool] function, under the configuration of the chain
+    state REACHED BY THE HISTORY SO FAR.  So whatever the current mempool check would reject is
+    rejected on recheck too: if, after any history (governance may have added or raised a message fee,
+    the floor price or the conversion may have changed since it was first admitted), the declared fee
+    of an offered transaction - new or pending - does not cover the base fee plus the additional fees
+    of its top-level messages under the CURRENT configuration, it is not admitted, is not part of the
+    block, and the block runs as if it had not been offered. *)
+Theorem C08_recheck_rejects_what_the_current_check_rejects : forall c0 ops bs k b,
+  let c := brun c0 ops in
+  wf_cfg (ch_cfg c) -> Forall (fun b => wf_tx (b_tx b)) bs ->
+  nth_error bs k = Some b ->
+  ~ (forall d, amount_of (base_fee (ch_cfg c) (t_gas (b_tx b))) d + additional_pre (ch_cfg c) (routed_top (b_tx b)) d
+               <= amount_of (t_fee (b_tx b)) d) ->
+  nth_error (mempool (ch_cfg c) (ch_st c) bs) k <> Some true.
+Proof. exact recheck_rejects. Qed.
+Print Assumptions C08_recheck_rejects_what_the_current_check_rejects.
+
 (** What does not roll back, does not exist: a proposal that is rejected, or whose messages do not ALL
     succeed, leaves the chain exactly as it was - fee schedule, params, every balance - and any later
     block runs exactly as it would have without the proposal (the schedule consulted is the committed
@@ -339,7 +358,7 @@ Definition ex_plain (ty : mtype) : tmsg :=
 Definition ex_btx (payer : acct) (sq : Z) (fee : coins) (msgs : list tmsg) : btx :=
   {| b_tx := {| t_fee := fee; t_gas := 200000; t_payer := payer; t_granter := None; t_signers := [payer];
                 t_msgs := msgs; t_sig_ok := true; t_gas_out := GasOk |};
-     b_sigseq := [(payer, sq)]; b_gas := GObserved GasOk; b_used := 90000; b_forced := false |}.
+     b_sigseq := [(payer, sq)]; b_gas := GObserved GasOk; b_used := 90000; b_forced := false; b_hold := false; b_recheck := false |}.
 Definition ex_block : list btx :=
   [ ex_btx 1%N 0 [(1%N, 400800)]
       [ {| m_top := {| r_type := 1%N; r_custom := None; r_action := ASend 1%N 4%N [(1%N, 590000)]; r_post := [] |}; m_nested := [] |} ];
@@ -376,13 +395,13 @@ Proof. vm_compute. repeat split. Qed.
 Definition ex_granted (fee sq : Z) : btx :=
   {| b_tx := {| t_fee := [(1%N, fee)]; t_gas := 200000; t_payer := 1%N; t_granter := Some 2%N; t_signers := [1%N];
                 t_msgs := [ex_plain 9%N]; t_sig_ok := true; t_gas_out := GasOk |};
-     b_sigseq := [(1%N, sq)]; b_gas := GObserved GasOk; b_used := 90000; b_forced := false |}.
+     b_sigseq := [(1%N, sq)]; b_gas := GObserved GasOk; b_used := 90000; b_forced := false; b_hold := false; b_recheck := false |}.
 Definition ex_chain_grant (lim : Z) : chain :=
   {| ch_cfg := ex_cfg;
      ch_st := {| bal := fun a _ => if N.eqb a 0 then 0 else 1000000; seqn := fun _ => 0;
                  allow := fun g p => if (N.eqb g 2 && N.eqb p 1)%bool then Some (Some [(1%N, lim)]) else None |} |}.
 Definition ex_forced (b : btx) : btx :=
-  {| b_tx := b_tx b; b_sigseq := b_sigseq b; b_gas := b_gas b; b_used := b_used b; b_forced := true |}.
+  {| b_tx := b_tx b; b_sigseq := b_sigseq b; b_gas := b_gas b; b_used := b_used b; b_forced := true; b_hold := false; b_recheck := false |}.
 
 Example C08_grant_witness :
   (* allowance = the first transaction's declared fee: the second is not admitted; forced into the block it
@@ -398,4 +417,28 @@ Example C08_grant_witness :
      no grant any more, the transaction fails and the granter has paid the base fee *)
   (let '(c', rs) := run_block (ex_chain_grant 400000) 60000000 [ex_granted 400000 0] in
    rs = [RFailed] /\ allow (ch_st c') 2%N 1%N = None /\ bal (ch_st c') 2%N 1%N = 600000 /\ seqn (ch_st c') 1%N = 1).
+Proof. vm_compute. repeat split. Qed.
+
+
+(** Non-vacuity of the recheck clause: a MsgSend declaring exactly the base fee is admitted under
+    [ex_cfg], whose schedule has no fee on its message type 9; a
+    passing proposal then adds one (5 of denom 1); offered again (recheck) on the chain after the
+    proposal, the same transaction is rejected, the block does not contain it and nothing is charged. *)
+Definition ex_recheck_tx (re : bool) : btx :=
+  {| b_tx := {| t_fee := [(1%N, 400000)]; t_gas := 200000; t_payer := 5%N; t_granter := None; t_signers := [5%N];
+                t_msgs := [ex_plain 9%N]; t_sig_ok := true; t_gas_out := GasOk |};
+     b_sigseq := [(5%N, 0)]; b_gas := GObserved GasOk; b_used := 90000; b_forced := false; b_hold := negb re; b_recheck := re |}.
+
+Example C08_recheck_witness :
+  (* admitted and held back: the block is empty, nothing changes *)
+  mempool ex_cfg (ch_st ex_chain) [ex_recheck_tx false] = [true] /\
+  snd (run_block ex_chain 60000000 [ex_recheck_tx false]) = [RRejected] /\
+  block_trace ex_chain 60000000 [ex_recheck_tx false] = [] /\
+  (let '(c1, ok) := gov_exec (fst (run_block ex_chain 60000000 [ex_recheck_tx false])) true [GAddFee 9%N (1%N, 5) None None] in
+   ok = true /\
+   mempool (ch_cfg c1) (ch_st c1) [ex_recheck_tx true] = [false] /\
+   block_trace c1 60000000 [ex_recheck_tx true] = [] /\
+   bal (ch_st (fst (run_block c1 60000000 [ex_recheck_tx true]))) 5%N 1%N = 1000000) /\
+  (* without the proposal the recheck admits it and it succeeds *)
+  snd (run_block (fst (run_block ex_chain 60000000 [ex_recheck_tx false])) 60000000 [ex_recheck_tx true]) = [ROk].
 Proof. vm_compute. repeat split. Qed.
